@@ -78,3 +78,41 @@ func H_C30_leafref() {
 		symAssert((err != nil) == dangling, "a leafref error must be reported exactly for dangling references")
 	}
 }
+
+// H_C30_multikey: a leafref whose path carries a two-key predicate
+// (../k2s[k1=current()/../sel][k2=current()/../sel]/v). The list it points into is empty,
+// so a set value is dangling: an error without options, none with IgnoreMissingData
+// (whatever the Log flag) - also when the path resolution itself fails hard.
+func H_C30_multikey() {
+	c := &V_C{}
+	dangling := false
+	if symBool("mref.set") {
+		mv := c01S("mref", 1)
+		c.Mref = &mv
+		dangling = true
+	}
+	if symBool("sel.set") {
+		sel := c01S("sel", 1)
+		c.Sel = &sel
+	}
+	if symBool("ref.set") { // an ordinary dangling reference next to it
+		v := c01S("ref", 1)
+		c.Ref = &v
+		dangling = true
+	}
+	d := &Device{C: c}
+	var err error
+	ignore := false
+	if symBool("no options") {
+		err = d.ΛValidate()
+	} else {
+		ignore = symBool("ignore_missing")
+		err = d.ΛValidate(&ytypes.LeafrefOptions{IgnoreMissingData: ignore, Log: symBool("log")})
+	}
+	symReach("validated")
+	if ignore {
+		symAssert(err == nil, "with IgnoreMissingData no leafref error may be reported")
+	} else {
+		symAssert((err != nil) == dangling, "a leafref error must be reported exactly for dangling references")
+	}
+}
